@@ -31,9 +31,9 @@ CLAIMED = {
         note="Trusted: TLC, limb sensor. gmpy2 shimmed by exact rationals. Domains without boundary only.",
         ref="5 (C14)"),
     "C02": dict(
-        technique="TLA+ specs SamplerLaw.tla (abstract law + history independence), Alias.tla, Bst.tla (implementation-shaped refinements) model-checked by TLC for all small integer weight vectors; lattice sweeps and draw histories of every real sampler trace-validated by TLC",
+        technique="TLA+ specs SamplerLaw.tla (abstract law + history independence), Alias.tla, Bst.tla, Huffman.tla, Inversion.tla (implementation-shaped refinements) model-checked by TLC for all small integer weight vectors / draw histories; lattice sweeps and draw histories of every real sampler trace-validated by TLC; constructions replayed by TLC and compared with the real objects' structures (Struct_*.tla)",
         text="TLC checks SamplerLaw for every draw order with repetitions on small vectors, and that the Vose alias construction (as coded: two LIFO stacks, both leftover loops) and the implicit-heap cumulative tree induce exactly the target law for every integer weight vector (length <= 5, sum <= 8; zeros, ties, single non-zero entry). Every real sampler (alias, table, binary search tree, Huffman, inversion, adapted tree 1-d and n-d), built directly on all those vectors and through the public factory for every SamplingMethod on atomic chains in 1-d, 2-d, 3-d, is swept over a lattice of uniforms through the single-uniform entry point and through the batch call with the generator scripted, after arbitrary draw histories; TLC validates: count_k * S = N * W_k exactly, never a zero-weight / out-of-grid / origin state, memo never contradicted.",
-        note="Trusted: TLC, atomic measure / table copula stubs (integer masses), scripted generator. Table method judged up to its 2^-24 resolution. Huffman / inversion / adapted trees have no implementation-shaped TLA+ module yet (law-level verdict only).",
+        note="Trusted: TLC, atomic measure / table copula stubs (integer masses), scripted generator. Table method judged up to its 2^-24 resolution. The table method's J table and the adapted trees have no implementation-shaped TLA+ module (law-level verdict only). Inversion.tla also models the stateful enumeration (skip pointer, storage cap, rewind) and is compared draw by draw with the real sampler's internal state (DRIFT notices, not verdicts).",
         ref="5 (C02)"),
     "C01": dict(
         technique="TLA+ spec Chain.tla (cells, rates, intensity over atomic Levy measures) model-checked by TLC on lattice grids; rates / intensities / tree buckets recorded from real 1-d and copula chains trace-validated by TLC against exact atomic masses",
@@ -46,9 +46,9 @@ CLAIMED = {
         note="Trusted: TLC, atomic stubs, exact-integer sensor. Lattice grids only (exact moments). The x^2-oscillation bound on the total variance is not evaluated. Copula chains with the finite-variation flag only.",
         ref="5 (C04)"),
     "C03": dict(
-        technique="TLA+ spec Coupling.tla (next_level state machine + telescoping as an identity between sets of atoms) model-checked by TLC; real CouplingMarkovChain / CouplingSDE objects driven through next_level and trace-validated by TLC (coupling map observed by sweeping the coupling uniform)",
+        technique="TLA+ specs Coupling.tla (next_level state machine + telescoping as an identity between sets of atoms) and CouplingNd.tla (corner rule of the copula coupling in exact rationals) model-checked by TLC; real CouplingMarkovChain / CouplingProcessLevyCopula / CouplingSDE objects driven through next_level and trace-validated by TLC (coupling map observed by sweeping the coupling uniform)",
         text="TLC checks for 5 grid shapes and levels 0..3 that the atoms the coupling sends to each coarse state are exactly the atoms of that state's cell in the level-(l-1) chain (valid for any weights), locality, and that the coarse coefficient / drift are the previous level's fine ones. Real one-dimensional couplings (every sampling method, lattice / geometric / probability-step grids, finite and infinite variation flag, sigma on/off) are driven through next_level up to 3 times; per level TLC validates on recorded exact data: nesting of the in-place refined grid, locality of every move, telescoping against the PREVIOUS level's recorded cells, coarse diffusion coefficient and deterministic drift = previous fine ones, both diffusion components = cumulative sums of the same scripted increments scaled by their own coefficient. The SDE coupling's hand-over of coefficient and drift (path_managers=None route) is validated too.",
-        note="Trusted: TLC, atomic stubs, rank sensor. The Levy-copula coupling (d >= 2) is not yet validated by this check: a probe shows its coarse component does not have the previous level's rates for mixed-parity increments (DESIGN.md section 7, defect 10).",
+        note="Trusted: TLC, atomic stubs, rank sensor. The Levy-copula coupling (2-d, 3-d; aliased and per-axis lattice grids; every parity pattern) is validated the same way on finite-variation atomic copula models, plus slices of several jumps and a real infinite-variation model for the step-dependent diffusion matrix; the infinite-variation adjustment itself is only compared across levels.",
         ref="5 (C03)"),
     "C07": dict(
         technique="TLA+ spec StdMC.tla (bookkeeping + integer statistics incl. one control variate) model-checked by TLC over all small integer sample sets; runs of the real standard engine on scripted paths trace-validated by TLC",
@@ -90,11 +90,15 @@ CLAIMED = {
         text="PARTIAL (history half + contract). TLC checks on all histories of <= 5 steps that initialisation refreshes the cache and that a rejected assignment changes nothing. Every real parameter class (HEM, VG, CGMY, Merton, Black-Scholes) is driven through assignment histories (all ordered batches of distinct fields, random histories with interleaved initialisations, inadmissible values) ending with initialisation(); every numeric attribute of the object and omega / exponent / measure masses / cumulant of the model rebuilt from it must be bit-equal to the directly constructed one; constraints must be enforced on every assignment. The default calibration of HEM / Merton / VG / CGMY models (zero and non-zero dividend) must return a same-type model with the parameter inside its interval, repricing the Black-Scholes target within 1e-4, leaving the input untouched.",
         note="NOT decided: existence / uniqueness of a calibration solution.",
         ref="5 (C20)"),
+    "C11": dict(
+        technique="TLA+ spec Copula.tla (exact rational transcription of the case analysis of the independent, complete-dependence and Clayton theta = 1 Levy copulas) model-checked by TLC on lattices of arguments; values, volume() / margin() operators and conditional distributions of the real copula objects trace-validated by TLC",
+        text="PARTIAL. TLC checks Grounded, DIncreasing (every rectangle of the lattice, incl. infinite and zero-straddling sides) and UniformMargins for the independent and complete-dependence copulas and for Clayton at theta = 1 with eta in {0, 3/10, 1/2, 1}, d = 2 (9-point lattice incl. +-infinity and 0) and d = 3 (7-point lattice), in exact rational arithmetic; a pinned deviation of the orthant-weight rule (same-sign test) must violate. The real copula objects are evaluated on the same lattices: every value, volume() and margin() result and the theta = 1 conditional distribution must equal the transcription exactly (reduced fractions). For Clayton at other theta x eta, TLC forms all lattice volumes and margins from the table of recorded values (quantised 1e-7): grounded, volumes >= -slack, margins = identity; the 2-d conditional distribution must be non-decreasing from 0 to 1 and be inverted by its stated inverse where it is strictly increasing.",
+        note="NOT decided: the inequalities off the lattice / for all theta (a continuum); the mixed-derivative clause (the code returns the mixed partial derivative itself - what its only caller integrates - not that times the product of the arguments; no verdict is given on it). Trusted: TLC, rational / quantise sensors.",
+        ref="6 (C11)"),
 }
 
 NOT_APPLICABLE = {
     "C09": "closed-form Levy-measure integrals vs the model's own density: an identity of real analysis (special functions vs quadrature) with no state or discrete structure a TLA+ model could decide (DESIGN.md section 6)",
-    "C11": "groundedness / d-increasingness / uniform margins of the Clayton, independent and dependent Levy copulas are analytic inequalities over a continuum for all theta, eta; nothing for TLC to enumerate (DESIGN.md section 6)",
     "C18": "accuracy and mutual consistency of COS / FFT / closed-form pricers: numerical-transform accuracy, explicitly the wrong target for model-based verification (DESIGN.md section 6)",
 }
 
